@@ -13,6 +13,9 @@ import (
 	"testing"
 
 	"github.com/gogo/protobuf/proto"
+	chunk "github.com/ipfs/boxo/chunker"
+	"github.com/ipfs/boxo/ipld/unixfs/importer/balanced"
+	"github.com/ipfs/boxo/ipld/unixfs/importer/helpers"
 	pb "github.com/ipfs/boxo/ipld/unixfs/pb"
 	"github.com/ipfs/go-unixfsnode/data"
 
@@ -334,6 +337,11 @@ func TestC18_R_LargeFiles(t *testing.T) {
 // file-1 .. file-n (not byte-sorted: file-10 comes before file-2 in sorted order), hand-encoded so that the stored order
 // survives; every entry points at its own small raw block. defects: positions whose link gets no name.
 func wideDir(st *Store, n int, nameless map[int]bool) (cid.Cid, []string, map[string]cid.Cid) {
+	return wideDirDup(st, n, nameless, nil)
+}
+
+// wideDirDup: dups[i] = j gives link i the NAME of link j (its own target stays).
+func wideDirDup(st *Store, n int, nameless map[int]bool, dups map[int]int) (cid.Cid, []string, map[string]cid.Cid) {
 	var links []LinkInfo
 	var names []string
 	want := map[string]cid.Cid{}
@@ -341,6 +349,9 @@ func wideDir(st *Store, n int, nameless map[int]bool) (cid.Cid, []string, map[st
 		name := fmt.Sprintf("file-%d", i)
 		c := sumRaw([]byte(name))
 		st.Put(c, []byte(name))
+		if j, ok := dups[i]; ok {
+			name = fmt.Sprintf("file-%d", j)
+		}
 		ts := uint64(len(name))
 		li := LinkInfo{Name: strp(name), Tsize: &ts, Cid: c}
 		if nameless[i] {
@@ -377,6 +388,18 @@ func TestC15_R_WideUnsortedDirectories(t *testing.T) {
 				if _, err := checkMapContract(rn, []string{"nope", "file-0", fmt.Sprintf("file-%d", n+1), "Links"}); err != nil {
 					t.Fatalf("C15: plain directory of %d links in listing order (nameless at %v) via %s: %v", n, nameless, reifier, err)
 				}
+			}
+		}
+		// duplicated names with different targets, early and late in the list
+		st := NewStore()
+		root, _, _ := wideDirDup(st, n, nil, map[int]int{n / 3: 2, n - 1: n / 2, 7: n})
+		for _, reifier := range []string{"unixfs", "unixfs-preload"} {
+			rn, err := loadReified(st.LinkSystem(), root, reifier)
+			if err != nil {
+				t.Fatal(err)
+			}
+			if _, err := checkMapContract(rn, []string{"nope", fmt.Sprintf("file-%d", n/3), "file-7"}); err != nil {
+				t.Fatalf("C15: plain directory of %d links with duplicated names via %s: %v", n, reifier, err)
 			}
 		}
 	}
@@ -556,6 +579,242 @@ func TestC01_R_DeepNarrowFile(t *testing.T) {
 			b, err := rn.AsBytes()
 			if err != nil || !bytes.Equal(b, data) {
 				t.Fatalf("C01 deep (%d one-byte chunks at width 2) via %s: read %d bytes, err %v", n, how, len(b), err)
+			}
+		}
+	}
+}
+
+// Independent calls running in parallel goroutines (each with its own inputs, link system and store) must not influence
+// one another: builders and readers are functions of their arguments. (C17 is about sharing ONE node; this is about
+// sharing nothing but the package.)
+func TestC02_R_ConcurrentIndependentBuilds(t *testing.T) {
+	const G, rounds = 8, 120
+	type job struct {
+		es     []entrySpec
+		fanout int
+		want   cid.Cid
+	}
+	jobs := make([]job, G)
+	for g := range jobs {
+		var es []entrySpec
+		for i := 0; i < 200+g*13; i++ {
+			es = append(es, entryFor(fmt.Sprintf("g%d-entry-%d", g, i), g))
+		}
+		f := []int{8, 16, 256, 1024}[g%4]
+		c, _, err := buildSharded(NewStore(), es, f)
+		if err != nil {
+			t.Fatal(err)
+		}
+		jobs[g] = job{es, f, c}
+	}
+	errs := make(chan string, G)
+	var wg sync.WaitGroup
+	for g := 0; g < G; g++ {
+		wg.Add(1)
+		go func(g int) {
+			defer wg.Done()
+			defer func() {
+				if p := recover(); p != nil {
+					errs <- fmt.Sprintf("goroutine %d: panic %v", g, p)
+				}
+			}()
+			for r := 0; r < rounds; r++ {
+				st := NewStore()
+				c, _, err := buildSharded(st, jobs[g].es, jobs[g].fanout)
+				if err != nil || c != jobs[g].want {
+					errs <- fmt.Sprintf("goroutine %d round %d: sharded build (fanout %d, %d entries) returned %s (err %v), alone it returns %s", g, r, jobs[g].fanout, len(jobs[g].es), c, err, jobs[g].want)
+					return
+				}
+				dir, err := loadReified(st.LinkSystem(), c, "unixfs")
+				if err != nil {
+					errs <- err.Error()
+					return
+				}
+				for i := 0; i < len(jobs[g].es); i += 7 {
+					v, err := dir.LookupByString(jobs[g].es[i].Name)
+					if err != nil {
+						errs <- fmt.Sprintf("goroutine %d: member %q not found: %v", g, jobs[g].es[i].Name, err)
+						return
+					}
+					if c, _ := linkOf(v); c != jobs[g].es[i].Cid {
+						errs <- fmt.Sprintf("goroutine %d: member %q -> %s", g, jobs[g].es[i].Name, c)
+						return
+					}
+				}
+			}
+		}(g)
+	}
+	wg.Wait()
+	close(errs)
+	for e := range errs {
+		t.Fatalf("C02: %d goroutines building their own directories at the same time: %s", G, e)
+	}
+}
+
+func TestC07_R_ConcurrentIndependentBuilds(t *testing.T) {
+	const G, rounds = 8, 200
+	type job struct {
+		data []byte
+		want cid.Cid
+	}
+	jobs := make([]job, G)
+	for g := range jobs {
+		data := lcgBytes(262144*(1+g%3)+1000+g*37, byte(g+1), 0)
+		c, _, err := buildFile(NewStore(), data, "", 174)
+		if err != nil {
+			t.Fatal(err)
+		}
+		jobs[g] = job{data, c}
+	}
+	errs := make(chan string, G)
+	var wg sync.WaitGroup
+	for g := 0; g < G; g++ {
+		wg.Add(1)
+		go func(g int) {
+			defer wg.Done()
+			for r := 0; r < rounds; r++ {
+				ck := []string{"", "default", "size-262144"}[r%3]
+				c, _, err := buildFile(NewStore(), jobs[g].data, ck, 174)
+				if err != nil || c != jobs[g].want {
+					errs <- fmt.Sprintf("goroutine %d round %d: file of %d bytes (chunker %q) built as %s (err %v), alone as %s", g, r, len(jobs[g].data), ck, c, err, jobs[g].want)
+					return
+				}
+			}
+		}(g)
+	}
+	wg.Wait()
+	close(errs)
+	for e := range errs {
+		t.Fatalf("C07: %d goroutines importing their own files at the same time: %s", G, e)
+	}
+}
+
+func TestC03_R_ConcurrentIndependentTraversals(t *testing.T) {
+	const G, rounds = 8, 8000
+	type job struct {
+		st    *Store
+		root  cid.Cid
+		names []string
+	}
+	jobs := make([]job, G)
+	for g := range jobs {
+		st := NewStore()
+		var es []entrySpec
+		var names []string
+		for i := 0; i < 120; i++ {
+			name := fmt.Sprintf("file-%d-%d", g, i)
+			c := sumRaw([]byte(name))
+			st.Put(c, []byte(name))
+			es = append(es, entrySpec{Name: name, Cid: c, Tsize: uint64(len(name))})
+			names = append(names, name)
+		}
+		sub, _, err := buildSharded(st, es, []int{16, 256, 1024, 8}[g%4]) // name prefixes of 1, 2, 3 and 1 characters
+		if err != nil {
+			t.Fatal(err)
+		}
+		root, _, err := buildDir(st, []entrySpec{{Name: "d", Cid: sub, Tsize: 1}})
+		if err != nil {
+			t.Fatal(err)
+		}
+		jobs[g] = job{st, root, names}
+	}
+	errs := make(chan string, G)
+	var wg sync.WaitGroup
+	for g := 0; g < G; g++ {
+		wg.Add(1)
+		go func(g int) {
+			defer wg.Done()
+			j := jobs[g]
+			for r := 0; r < rounds; r++ {
+				name := j.names[(r*31+g)%len(j.names)]
+				ms, _, err := c03Walk(j.st, j.root, "d/"+name, "match", false)
+				if err != nil || len(ms) != 1 {
+					errs <- fmt.Sprintf("goroutine %d, traversal %d: path d/%s matched %d nodes (err %v)", g, r, name, len(ms), err)
+					return
+				}
+				if b, err := ms[0].Node.AsBytes(); err != nil || string(b) != name {
+					errs <- fmt.Sprintf("goroutine %d: path d/%s matched %q (err %v)", g, name, b, err)
+					return
+				}
+			}
+		}(g)
+	}
+	wg.Wait()
+	close(errs)
+	for e := range errs {
+		t.Fatalf("C03: %d goroutines resolving paths in their own trees (directories of different fanouts) at the same time: %s", G, e)
+	}
+}
+
+// C07: a subtree holding 4 GiB: root link and size still equal the reference importer's.
+func TestC07_R_Over4GiB(t *testing.T) {
+	n := int64(4)<<30 + 1<<20 + 5
+	got, gsz, err := buildFileR(NewStore().LinkSystem(), &zeroReader{n: n}, "size-1048576", 2)
+	if err != nil {
+		t.Fatal(err)
+	}
+	spl, err := chunk.FromString(&zeroReader{n: n}, "size-1048576")
+	if err != nil {
+		t.Fatal(err)
+	}
+	db, err := (&helpers.DagBuilderParams{Maxlinks: 2, RawLeaves: true, Dagserv: storeDAG{NewStore()}, CidBuilder: v1Prefix()}).New(spl)
+	if err != nil {
+		t.Fatal(err)
+	}
+	nd, err := balanced.Layout(db)
+	if err != nil {
+		t.Fatal(err)
+	}
+	wsz, _ := nd.Size()
+	if got != nd.Cid() || gsz != wsz {
+		t.Fatalf("C07 >4GiB (4 GiB + 1 MiB + 5 bytes of zeros, 1 MiB chunks, width 2): builder %s / %d, reference %s / %d", got, gsz, nd.Cid(), wsz)
+	}
+}
+
+// C04: reads with buffers of 64 KiB and more that cross chunk boundaries: the position the reader reports keeps pace.
+func TestC04_R_BulkReads(t *testing.T) {
+	for _, c := range []struct {
+		n       int
+		chunker string
+		w       int
+	}{{700000, "size-65536", 174}, {900000, "", 174}, {300000, "size-4096", 3}, {2<<20 + 17, "", 2}} {
+		fc := bigFile(t, c.n, c.chunker, c.w)
+		for _, bufSize := range []int{65536, 65537, 1 << 17, 1 << 20} {
+			rn, err := loadReified(fc.St.LinkSystem(), fc.Root, "unixfs")
+			if err != nil {
+				t.Fatal(err)
+			}
+			rs, _ := rn.(datamodel.LargeBytesNode).AsLargeBytes()
+			pos := int64(0)
+			buf := make([]byte, bufSize)
+			for step := 0; ; step++ {
+				k, rerr := rs.Read(buf)
+				if !bytes.Equal(buf[:k], fc.Data[pos:pos+int64(k)]) {
+					t.Fatalf("C04 bulk [%s] buffer %d: Read at %d returned wrong bytes", fc.Desc, bufSize, pos)
+				}
+				pos += int64(k)
+				if step%2 == 0 {
+					if p, err := rs.Seek(0, io.SeekCurrent); err != nil || p != pos {
+						t.Fatalf("C04 bulk [%s] buffer %d: after reads delivering %d bytes in total the reader reports position (%d, %v)", fc.Desc, bufSize, pos, p, err)
+					}
+				} else if pos+10 < int64(len(fc.Data)) {
+					if p, err := rs.Seek(10, io.SeekCurrent); err != nil || p != pos+10 {
+						t.Fatalf("C04 bulk [%s] buffer %d: Seek(10, Current) at %d = (%d, %v)", fc.Desc, bufSize, pos, p, err)
+					}
+					pos += 10
+				}
+				if rerr == io.EOF {
+					break
+				}
+				if rerr != nil {
+					t.Fatalf("C04 bulk [%s]: %v", fc.Desc, rerr)
+				}
+				if step > 1000 {
+					t.Fatalf("C04 bulk [%s]: no progress", fc.Desc)
+				}
+			}
+			if pos != int64(len(fc.Data)) {
+				t.Fatalf("C04 bulk [%s] buffer %d: EOF at %d of %d", fc.Desc, bufSize, pos, len(fc.Data))
 			}
 		}
 	}
